@@ -5,6 +5,7 @@ model; after every operation the history so far is replayed through the public A
 fully drained; all six comparison operators of every ordered event pair are compared with the key order.
 """
 import itertools
+import math
 
 ID = "C01"
 LEVEL = "exploration"
@@ -63,7 +64,8 @@ def gen_case(rng, tier, i):
     elif kind == "int":
         times = rng.sample(range(0, 30), ntimes)
     elif kind == "float":
-        times = [rng.choice([0.0, 0.5, 1.0, 1.5, 2.25, 1e-9, 1e9, 0.1 + 0.2, 0.3]) for _ in range(ntimes)]
+        times = [rng.choice([0.0, 0.5, 1.0, 1.5, 2.25, 1e-9, 1e9, 0.1 + 0.2, 0.3, -0.0, math.inf, -math.inf, 1e308, 5e-324])
+                 for _ in range(ntimes)]      # infinities are floats too ('never' / 'before everything')
     elif kind == "mixed":
         times = [rng.choice([1, 1.0, 2, 2.5, 3, 3.0, 0]) for _ in range(ntimes)]
     else:
